@@ -120,6 +120,7 @@ impl Op {
             Op::ProgressChars(cl) if cl.len() < 2 => Some("chars-lt2"),
             Op::ProgressChars(cl) if cl.iter().any(|c| meas(c) != meas(&cl[0])) => Some("unequal-width"),
             Op::ProgressChars(cl) if meas(&cl[0]) == 0 => Some("zero-width"),
+            Op::ProgressChars(cl) if cl.concat().contains('\t') => Some("tab-in-chars"),
             _ => None,
         }
     }
@@ -143,6 +144,8 @@ fn site_of(msg: &str) -> u32 {
         148
     } else if msg.contains("progress chars must not be zero-width") {
         153
+    } else if msg.contains("progress chars must not contain tabs") {
+        158
     } else if msg.contains("got passed un-equal width progress characters") {
         64
     } else if msg.contains("Option::unwrap()") {
@@ -429,6 +432,7 @@ fn run_case(s: &mut Session, c: &Case, child: bool) -> String {
                         ("ticks-lt2", _) => 133,
                         ("chars-lt2", _) => 148,
                         ("unequal-width", _) => 64,
+                        ("tab-in-chars", _) => 158,
                         _ => 153,
                     };
                     if *site != want {
@@ -471,7 +475,7 @@ fn run_case(s: &mut Session, c: &Case, child: bool) -> String {
                     panic_kind(m).to_string()
                 };
                 if cfg == "tab-width-huge" && !REPORT_TAB_FINDING {
-                    // candidate finding (docs/C14.md, theorem C14_huge_tab_refuted): recorded, not yet reported
+                    // switch for a tree without the D24 entry in known_findings.json: count only
                     s.count("unregistered-finding:draw-panic-tab-width-huge");
                 } else {
                     s.fail(&format!("draw-panic-{cfg}"), format!("{call} panicked on a built style: {m} [{} tw={tw} th={th}]", st.show()), desc.clone());
@@ -569,9 +573,9 @@ const TEXTS: &[&str] = &[
 ];
 const TERM_WIDTHS: [u16; 7] = [0, 1, 2, 3, 10, 80, 65535];
 /// `ProgressBar::with_tab_width(n)` with n > isize::MAX panics in the draw (capacity overflow in
-/// `" ".repeat(tab_width)`) when the template has a with_key key or a drawn text has a tab: theorem
-/// C14_huge_tab_refuted, reproduced by the corpus below.  Until that class is registered as a
-/// known finding (known_findings.json is not this property's file) the oracle only counts it.
+/// `" ".repeat(tab_width)`) when the template has a with_key key or {spinner} (TabRewriter) or a
+/// drawn text has a tab: theorem C14_huge_tab_refuted, reproduced by the corpus below; open known
+/// finding D24, class `draw-panic-tab-width-huge` (reported through `s.fail`, matched by class).
 const REPORT_TAB_FINDING: bool = true;
 
 fn gen_clusters(r: &mut Rng, n: usize, kind: u64) -> Vec<String> {
@@ -587,7 +591,11 @@ fn gen_clusters(r: &mut Rng, n: usize, kind: u64) -> Vec<String> {
                     _ => CL_W1,
                 },
             };
-            r.pick(pool).to_string()
+            if r.chance(1, 12) {
+                "\t".to_string() // its own cluster (Control); rejected since 6ff82af
+            } else {
+                r.pick(pool).to_string()
+            }
         })
         .collect()
 }
@@ -599,10 +607,10 @@ fn gen_count(r: &mut Rng) -> usize {
 fn gen_tick_op(r: &mut Rng) -> Op {
     let n = gen_count(r);
     if r.chance(1, 2) {
-        let pool: Vec<char> = "-\\|/+x ⠁⠉⠙日本é\u{301}\u{200b}🕐🕑".chars().collect();
+        let pool: Vec<char> = "-\\|/+x ⠁⠉⠙日本é\u{301}\u{200b}🕐🕑\t".chars().collect();
         Op::TickChars((0..n).map(|_| *r.pick(&pool)).collect())
     } else {
-        let pool = ["", "-", "ab", "⠁", "日本", "\u{1f468}\u{200d}\u{1f469}\u{200d}\u{1f467}", "▹▹▸", "e\u{301}", "\t", " ", "done"];
+        let pool = ["", "-", "ab", "⠁", "日本", "\u{1f468}\u{200d}\u{1f469}\u{200d}\u{1f467}", "▹▹▸", "e\u{301}", "\t", "a\tb", "\t\t", " ", "done"];
         Op::TickStrings((0..n).map(|_| r.pick(&pool).to_string()).collect())
     }
 }
@@ -681,7 +689,7 @@ fn gen_state(r: &mut Rng) -> St {
         msg: r.pick(TEXTS).to_string(),
         prefix: r.pick(TEXTS).to_string(),
         step_ns: *r.pick(&[0u64, 0, 1_000, 1_000_000, 1_000_000_000, 1_000_000_000_000_000]),
-        tab: *r.pick(&[8usize, 8, 0, 1, 4, 13, 1000]),
+        tab: *r.pick(&[8usize, 8, 0, 1, 4, 13, 1000, 5000, 65536]),
     }
 }
 
@@ -779,6 +787,16 @@ fn corpus(r: &mut Rng) -> Vec<Case> {
         (Ctor::WithTemplate(s("{wide_bar}{wide_msg}\n{wide_bar}\n{spinner}")), vec![Op::TickStrings(sv(&["\u{65e5}\u{672c}", "", "x"]))]),
         (Ctor::WithTemplate(s("{wide_bar:.red/blue} {bar:^7.green} {spinner:3}")), vec![Op::ProgressChars(sv(&["\u{1f44d}", "\u{1f1e9}\u{1f1ea}"])), Op::TickChars(s("\u{1f550}\u{1f551}\u{1f552}"))]),
         (Ctor::WithTemplate(s("{ck} {bar} {ck:5!}")), vec![Op::WithKey(s("ck"), s("\u{65e5}\u{672c}\u{8a9e}\tx")), Op::WithKey(s("bar"), s("BAR"))]),
+        // 6ff82af: a TAB in progress_chars is rejected (after the other checks), TABs in tick strings are fine
+        (Ctor::DefaultBar, vec![Op::ProgressChars(sv(&["#", "\t"]))]),
+        (Ctor::DefaultBar, vec![Op::ProgressChars(sv(&["\t", "\t"]))]),
+        (Ctor::DefaultBar, vec![Op::ProgressChars(sv(&["\t", "#", "-"]))]),
+        (Ctor::DefaultBar, vec![Op::ProgressChars(sv(&["\u{65e5}", "\t"]))]),
+        (Ctor::DefaultBar, vec![Op::ProgressChars(sv(&["\t"]))]),
+        (Ctor::DefaultBar, vec![Op::ProgressChars(sv(&["\u{200b}", "\t"]))]),
+        (Ctor::WithTemplate(s("{spinner}|{spinner:3}|{spinner:>9!}")), vec![Op::TickStrings(sv(&["\t", "a\tb", "\t\t", "x"]))]),
+        (Ctor::WithTemplate(s("{spinner} {msg}")), vec![Op::TickChars(s("\t\t"))]),
+        (Ctor::DefaultSpinner, vec![Op::TickChars(s("a\tb"))]),
         (Ctor::DefaultBar, vec![Op::Template(s("{bar"))]),
         (Ctor::DefaultBar, vec![Op::Template(s("{:}")), Op::TickChars(s(""))]),
         (Ctor::DefaultBar, vec![Op::TickChars(s("")), Op::Template(s("{:}"))]),
@@ -825,7 +843,20 @@ fn huge_tab_cases() -> Vec<Case> {
         tick_idx: vec![0, u64::MAX],
     };
     let tabs = [usize::MAX, (isize::MAX as usize) + 1, 4096, 0];
-    vec![
+    // tab widths in (4096, isize::MAX]: the class boundary from below.  TAB-free texts and no
+    // TabRewriter user (custom key, {spinner}): `" ".repeat(tab_width)` is never evaluated, nothing
+    // is allocated, every width up to isize::MAX must draw ...
+    let big = [1usize << 20, 1 << 32, 1 << 40, 1 << 62, isize::MAX as usize];
+    // ... and where it IS evaluated (one TAB / a custom key / {spinner}) widths that still fit in
+    // memory (at most 1 MiB per expansion) must draw as well
+    let mid = [4097usize, 65536, 1 << 20];
+    let mut v = vec![
+        mk("{msg} {prefix} {pos}/{len} {bar:5} {wide_bar}", vec![], "ab", "p", &big),
+        mk("lit {wide_msg}", vec![Op::WithKey(s("unused"), s("x"))], "ab", "", &big),
+        mk("{spinner} {ck} {msg}", vec![Op::WithKey(s("ck"), s("x"))], "a\tb", "", &mid),
+        mk("a\tb {spinner:4}", vec![Op::TickStrings(vec![s("\t"), s("x")])], "", "\t", &mid),
+    ];
+    v.extend(vec![
         mk("{ck}", vec![Op::WithKey(s("ck"), s("x"))], "m", "", &tabs),
         mk("{ck}", vec![Op::WithKey(s("ck"), s(""))], "m", "", &tabs),
         mk("{msg}", vec![], "a\tb", "", &tabs),
@@ -834,7 +865,10 @@ fn huge_tab_cases() -> Vec<Case> {
         mk("x{wide_msg}", vec![], "\t", "", &tabs),
         mk("a\tb {pos}", vec![], "", "", &tabs),
         mk("{bar} {spinner}", vec![Op::WithKey(s("unused"), s("x"))], "a\tb", "\t", &tabs),
-    ]
+        mk("{spinner}", vec![], "", "", &tabs),
+        mk("{bar} {pos}", vec![Op::WithKey(s("unused"), s("x"))], "a\tb", "\t", &tabs),
+    ]);
+    v
 }
 
 // ------------------------------------------------------------------ release twin
@@ -919,7 +953,7 @@ fn main() {
     let header = "From IndModel Require Import Base Template Builder.\nOpen Scope N_scope.\n";
     let mut s = Session::new(&a, "C14", header, "bcase", "builder_check");
     s.shard_size = 60;
-    s.rule = "chains constructor(.tick_chars|.tick_strings|.progress_chars|.template|.with_key)* with 0,1,2,3,10 (and more) tick strings / progress clusters of width 0/1/2/mixed (combining marks, ZWJ emoji, flags, CJK, zero-width), templates from the documented grammar (every key, widths 0..65536+, alignment, truncation, styles, wide elements) and junk; every built style drawn on a recording terminal for states (pos/len at 0, 1, len-1, len, len+1, 2^32, 2^64-1, None; finished or not; 19 message/prefix texts; 6 clock regimes) x widths {0,1,2,3,10,80,65535} x heights, and get_tick_str probed at 0,1,n-2,n-1,n,2^32,2^64-2,2^64-1; non-trivial = at least one builder call or a with_template constructor; distinct = distinct case text".into();
+    s.rule = "chains constructor(.tick_chars|.tick_strings|.progress_chars|.template|.with_key)* with 0,1,2,3,10 (and more) tick strings / progress clusters of width 0/1/2/mixed (combining marks, ZWJ emoji, flags, CJK, zero-width), templates from the documented grammar (every key, widths 0..65536+, alignment, truncation, styles, wide elements) and junk; every built style drawn on a recording terminal for states (pos/len at 0, 1, len-1, len, len+1, 2^32, 2^64-1, None; finished or not; 19 message/prefix texts; 6 clock regimes) x widths {0,1,2,3,10,80,65535} x heights, and get_tick_str probed at 0,1,n-2,n-1,n,2^32,2^64-2,2^64-1; non-trivial = at least one builder call or a with_template constructor; tab widths 0..65536 at random plus a corpus at 4097, 2^16, 2^20 (expanded) and 2^20..isize::MAX (nothing to expand) and above isize::MAX (D24); distinct = distinct case text".into();
     let mut r = Rng::new(a.seed);
     let mut cases = corpus(&mut r);
     let (n, per_width) = if a.thorough { (6000, 2) } else if a.extended { (3000, 1) } else { (700, 1) };
